@@ -52,6 +52,7 @@ class C06(Check):
         yield from families.seats_ties(4, spaces.BU(4), seats=(1, 2, 3), ties='id', cfgs=G)
         yield from families.repo_files(G, max_bytes=4000 if tier == 'quick' else 10 ** 7)
         yield from families.corner_corpus(G)
+        yield from families.seats_ties(3, spaces.HUGE(3), seats=(1, 2), ties='id', cfgs=G)     # piles of ~10^5 ballots: zero-truncating and unit-sized surpluses
         if tier == 'thorough':
             yield from families.seats_ties(4, spaces.W(4, 2, 4, (1, 2, 3)), seats=(2, 3), ties='id', cfgs=G + menu[::6])
             yield from families.seats_ties(3, spaces.U(3, 6, 6), cfgs=G)
